@@ -70,7 +70,7 @@ def run(tier, seed):
 
     credits = [None, ac.LinearCredit(), ac.LinearCredit(minimum_credit=0, decrease_credit_steps=1), ac.GeometricCredit(factor=0), ac.ReciprocalCredit()]
     attempts = [1, 2, 3, 7]
-    garbage = ['', ' ', 'ü∂ƒ', '((', '1/0', 'x', '3', 'cat', 'a, b', '[1,2]', '[1,3]', '2*x', 'x+1', '[1,2)', '(1,2]', 'dog', '1;2', 'x^2+1', '-x', '[[1,2],[3,4]]']
+    garbage = ['', ' ', 'ü∂ƒ', '((', '1/0', 'x', '3', 'cat', 'a, b', 'a, c', 'p, q', 'q, p', 'a, q', '[1,2]', '[1,3]', '2*x', 'x+1', '[1,2)', '(1,2]', 'dog', '1;2', 'x^2+1', '-x', '[[1,2],[3,4]]']
 
     def common(i):
         c = credits[i % len(credits)]
@@ -110,7 +110,8 @@ def run(tier, seed):
         for pc, ordered in itertools.product((True, False), repeat=2):
             k += 1
             yield 'SingleListGrader', (lambda kw, pc=pc, ordered=ordered: lg.SingleListGrader(
-                answers=({'expect': ['a', ('b', 'B')], 'grade_decimal': 1, 'msg': 'yes'}, {'expect': ['a', 'c'], 'grade_decimal': 0.5}),
+                answers=({'expect': ['a', ('b', 'B')], 'grade_decimal': 1, 'msg': 'yes'}, {'expect': ['a', 'c'], 'grade_decimal': 0.5},
+                         {'expect': ['p', 'q'], 'grade_decimal': 0, 'msg': 'a zero-credit list with a message'}),
                 subgrader=sg.StringGrader(), partial_credit=pc, ordered=ordered, **kw)), None, common(k)
         # IntervalGrader
         k += 1
@@ -135,6 +136,12 @@ def run(tier, seed):
             answers=[['a', 'b'], 'x+1', ['c', 'd']], subgraders=[lg.ListGrader(subgraders=sg.StringGrader(), ordered=False), fgm.FormulaGrader(variables=['x']),
                                                                  lg.SingleListGrader(subgrader=sg.StringGrader())],
             grouping=[1, 1, 2, 3], ordered=True, **kw)), 4, common(k)
+        for grouping in ([2, 1], [2, 3, 1], [3, 1, 2]):
+            k += 1
+            n = len(grouping)
+            names = ['cat', 'dog', 'emu'][:n]
+            yield 'ListGrader(singleton groups %r)' % (grouping,), (lambda kw, grouping=grouping, names=names: lg.ListGrader(
+                answers=names, subgraders=[sg.StringGrader() for _ in names], grouping=grouping, ordered=True, **kw)), ('perm', tuple(grouping)), common(k)
         k += 1
         yield 'ListGrader(Formula subgraders)', (lambda kw: lg.ListGrader(
             answers=['x', ({'expect': '2*x', 'grade_decimal': 1}, {'expect': 'x', 'grade_decimal': 0.5})], subgraders=fgm.FormulaGrader(variables=['x']), ordered=False, **kw)), 2, common(k)
@@ -145,6 +152,24 @@ def run(tier, seed):
              3: [['cat', 'dog', 'x'], ['kitten', 'dog', 'y'], ['dog', 'cat', 'y'], ['x', 'kitten', 'zz'], ['', '', ''], ['kitten', 'y', 'dog'], ['cat', 'dog', 'x', 'y']],
              4: [['a', 'b', 'x+1', 'c, d'], ['b', 'a', 'x', 'd'], ['q', 'a', '1+x', 'c,d,e'], ['a', 'b', 'x+1']]}
     for name, mk, shape, kw in configs():
+        if isinstance(shape, tuple) and shape[0] == 'perm':
+            # box i belongs to group grouping[i], whose answer is names[grouping[i] - 1]: entry i of input_list is about box i
+            grouping = shape[1]
+            names = ['cat', 'dog', 'emu'][:len(grouping)]
+            right = [names[g - 1] for g in grouping]
+            for wrong_at in [None] + list(range(len(grouping))):
+                inp = list(right)
+                if wrong_at is not None:
+                    inp[wrong_at] = 'zebra'
+                try:
+                    r = mk({a: b for a, b in kw.items() if not a.startswith('attempt_based_credit')})(None, inp)
+                    oks = [e['ok'] for e in r['input_list']]
+                except Exception as e:
+                    oks = '%s: %s' % (type(e).__name__, str(e)[:100])
+                want = [i != wrong_at for i in range(len(grouping))]
+                key = (name, repr(inp))
+                (t.ok if oks == want else t.fail)(name, key, *([] if oks == want else ['%s input %r: per-box ok %r, expected %r (entry i must report on input box i)' % (name, inp, oks, want)]))
+            continue
         for inp in pools[shape]:
             atts = attempts if 'attempt_based_credit' in kw else [None]
             if tier == 'quick' and len(atts) > 2:
